@@ -339,6 +339,9 @@ class Report:
             self.cov['discharged_count'] = self.cov.pop('discharged')
             self.cov.setdefault('distinct_nontrivial', 0)
         self.cov['known_findings_hit'] = [k for k, _ in self.known_hits]
+        self.cov['known_findings_listed_not_reproduced_this_run'] = [
+            kf.get('key') for kf in self.known
+            if kf.get('status') != 'fixed' and kf.get('key') not in {k for k, _ in self.known_hits}]
         ev = {'property_id': self.pid, 'tier': self.tier, 'seed': self.seed, 'level': self.level,
               'coverage': self.cov, 'assumptions': self.assumptions, 'wall_s': round(wall, 2),
               'violations': len(self.violations)}
@@ -347,6 +350,14 @@ class Report:
             json.dump(ev, f, indent=1, default=str)
         for key, what in self.known_hits:
             print(f'KNOWN-FINDING: property={self.pid} {what}')
+        # every listed open finding is announced on every run; the ones this run's inputs did not
+        # reproduce are marked as such (they suppress nothing either way: suppression is by key)
+        hit = {k for k, _ in self.known_hits}
+        not_hit = [kf for kf in self.known if kf.get('status') != 'fixed' and kf.get('key') not in hit]
+        self.cov['known_findings_listed_not_reproduced_this_run'] = [kf.get('key') for kf in not_hit]
+        for kf in not_hit:
+            print(f'KNOWN-FINDING: property={self.pid} {kf.get("what", kf.get("key"))} '
+                  f'[listed in known-findings.json; not reproduced by the inputs of this run]')
         for what, path, has_input in self.violations:
             tail = '' if has_input else ' no-failing-input-found'
             print(f'[{self.pid}] {what}')
